@@ -5,7 +5,7 @@ import tv, engine
 
 
 def run_families(prop, rep, progs_with_meta, name, maxsteps=20000, differ_is_violation=True, goinvalid_is_violation=False,
-                 crash_is_violation=False):
+                 crash_is_violation=False, same_meaning=None):
     """progs_with_meta: list of {prog, family, ident, expect?}; returns (cases, counts)"""
     root = workdir(name)
     cases = tv.prepare_cases(progs_with_meta, root)
@@ -18,6 +18,9 @@ def run_families(prop, rep, progs_with_meta, name, maxsteps=20000, differ_is_vio
         cls, d = c["cls"], c["cls_detail"]
         exp = c.get("expect")
         replay = {"path": c["path"], "ident": c["ident"]}
+        if cls == "differ" and same_meaning is not None and isinstance(d, dict) and d.get("expected_status") == d.get("go_status") \
+                and same_meaning(c.get("oracle", {}).get("out", b""), (c.get("sem") or {}).get("out", b"")):
+            c["cls"] = cls = "agree"          # different spelling of the same value (e.g. two JSON texts that decode alike)
         if cls == "differ" and differ_is_violation:
             rep.violation(c["ident"], dict(d, source=c["text"][-2500:]), replay=replay)
         elif cls == "go-invalid" and goinvalid_is_violation:
